@@ -23,7 +23,10 @@ AttrDescr == { [op |-> "slice", pos |-> 0, kind |-> "attr", ar |-> 0, sort |-> s
         \cup { [op |-> op, pos |-> 0, kind |-> "attr", ar |-> 0, sort |-> so, st |-> by, ex |-> 0] : op \in {"uext", "sext"}, so \in 1..3, by \in 0..3 }
 \* reductions over an operand of the largest sort the reader accepts (redxor is lowered to one slice per operand bit)
 HugeDescr == { [op |-> op, pos |-> 0, kind |-> "hugesort", ar |-> 0, sort |-> 0, st |-> 0, ex |-> 0] : op \in {"redxor", "redand", "redor", "not", "slice"} }
-Init == d \in OpDescr \cup LineDescr \cup AttrDescr \cup HugeDescr /\ d.pos <= d.ar
+\* inputs of recorded findings that the mutation driver does not reach in every run: an array sort over an array sort,
+\* constants whose digits do not fit the declared width
+KnownDescr == { [op |-> op, pos |-> 0, kind |-> "known", ar |-> 0, sort |-> 0, st |-> 0, ex |-> 0] : op \in {"arrofarr_index", "arrofarr_data", "constd_fit", "consth_fit", "const_fit"} }
+Init == d \in OpDescr \cup LineDescr \cup AttrDescr \cup HugeDescr \cup KnownDescr /\ d.pos <= d.ar
 Next == UNCHANGED d
 Emit == PrintT(<<"PV", ToJson(d)>>)
 =============================================================================
